@@ -142,7 +142,10 @@ def extract_params(raw):
 
 
 def is_valid_url(url: str, fragments_allowed=True):
-    parsed = urlparse.urlparse(url)
-    return (
-        parsed.scheme and parsed.hostname and (fragments_allowed or not parsed.fragment)
-    )
+    try:
+        parsed = urlparse.urlparse(url)
+        hostname = parsed.hostname
+    except ValueError:
+        # for instance an unbalanced "[" in the host
+        return False
+    return parsed.scheme and hostname and (fragments_allowed or not parsed.fragment)
